@@ -11,11 +11,12 @@ def run(pid, tier):
     t0 = time.time()
     seed = common.seed()
     rnd = random.Random(seed * 31337 + 5)
-    ncases, kmax, stride = (10, 150, 5) if tier == 'quick' else (80, 2000, 3)
-    max_gen = 3
+    ncases, kmax, stride = (12, 150, 5) if tier == 'quick' else (80, 2000, 3)
     cases = []
     for i in range(ncases):
         c = pgen.make_case(rnd.randrange(1 << 30), rnd.choice(['tiny', 'tiny', 'small']))
+        # most runs with a maximum of 3 generations; some with 0 (nothing may run) and 1
+        max_gen = 3 if i < ncases - max(4, ncases // 4) else (0 if i % 2 == 0 else 1)
         c.update({'maxGenerations': max_gen, 'threads': 1, 'kmax': kmax, 'stride': stride, 'realtime': i < (1 if tier == 'quick' else 4)})
         cases.append(c)
     d = common.workdir(pid + '-quota')
@@ -43,33 +44,44 @@ def run(pid, tier):
             verdict.add('C07/ReturnsSolution/%s' % what, 'run %s: solver returned %s (%s) after events "%s"' % (rid, r['status'], r.get('error', '')[:120], r['events'][:80]),
                         {'case': cases_by_id[r['id']], 'run': {k: v for k, v in r.items() if k != 'solution'}})
     # 3. trace validation against the control-loop model (single-threaded runs, events in call order)
-    trace = []
-    for r in runs:
-        ev = [{'e': x[0], 'b': x[1] == '1'} for x in r['events'].split()] if r['events'] else []
-        trace.append({'id': '%s-%s-%s' % (r['id'], r['mode'], r['k']), 'events': ev, 'status': 'ok' if r['status'] == 'ok' else 'err',
-                      'generations': r.get('generations', -1), 'maxGenerations': max_gen, 'initMax': 4})
-    ft = os.path.join(d, 'trace.ndjson')
-    common.write_ndjson(ft, trace)
-    tv = common.tlc('TraceSolver', env={'RUNS': ft}, workers=1, name=pid + '-trace', timeout=3000, deque=True, xmx='8g')
-    rejected = [l for l in tv.out.splitlines() if 'TRACE-REJECTED' in l]
-    if rejected:
-        idx = int(rejected[0].split('run ')[1].split()[0])
-        bad = runs[idx - 1]
-        verdict.add('C07/TraceAccepted/%s' % bad['mode'], 'run %s is not a behaviour of Solver.tla: events "%s" status %s generations %s' % (trace[idx - 1]['id'], bad['events'][:200], bad['status'], bad.get('generations')),
-                    {'case': cases_by_id[bad['id']], 'run': {k: v for k, v in bad.items() if k != 'solution'}})
-    gen_fail = {f[2] for f in tv.fails if f[0] == 'GenerationsBounded'}
-    for rid in sorted(gen_fail):
-        verdict.add('C07/GenerationsBounded/max-generations-plus-one', 'run %s executed more than maxGenerations=%d generations' % (rid, max_gen), {'run': rid})
+    trace, rejected, tv_states, tv_trans = [], [], 0, 0
+    # one trace file (and one configuration of TraceSolver.tla) per configured maximum
+    for max_gen in sorted({cases_by_id[r['id']]['maxGenerations'] for r in runs}):
+        group = [r for r in runs if cases_by_id[r['id']]['maxGenerations'] == max_gen]
+        tg = []
+        for r in group:
+            ev = [{'e': x[0], 'b': x[1] == '1'} for x in r['events'].split()] if r['events'] else []
+            tg.append({'id': '%s-%s-%s' % (r['id'], r['mode'], r['k']), 'mode': r['mode'], 'events': ev, 'status': 'ok' if r['status'] == 'ok' else 'err',
+                       'generations': r.get('generations', -1), 'maxGenerations': max_gen, 'initMax': 4})
+        ft = os.path.join(d, 'trace-%d.ndjson' % max_gen)
+        common.write_ndjson(ft, tg)
+        open(os.path.join(common.SPEC, 'TraceSolver_run.cfg'), 'w').write(open(os.path.join(common.SPEC, 'TraceSolver.cfg')).read().replace('MaxGen = 3', 'MaxGen = %d' % max_gen))
+        tv = common.tlc('TraceSolver', cfg='TraceSolver_run.cfg', env={'RUNS': ft}, workers=1, name=pid + '-trace', timeout=3000, deque=True, xmx='8g')
+        if not tv.distinct:
+            raise ToolError('TraceSolver did not run for maxGenerations=%d: see work/tlc-%s-trace.log' % (max_gen, pid))
+        tv_states += tv.distinct; tv_trans += tv.generated
+        rej = [l for l in tv.out.splitlines() if 'TRACE-REJECTED' in l]
+        if rej:
+            idx = int(rej[0].split('run ')[1].split()[0])
+            bad = group[idx - 1]
+            rejected.append(tg[idx - 1]['id'])
+            verdict.add('C07/TraceAccepted/%s' % bad['mode'], 'run %s (maxGenerations %d) is not a behaviour of Solver.tla: events "%s" status %s generations %s' % (tg[idx - 1]['id'], max_gen, bad['events'][:200], bad['status'], bad.get('generations')),
+                        {'case': cases_by_id[bad['id']], 'run': {k: v for k, v in bad.items() if k != 'solution'}})
+        for rid in sorted({f[2] for f in tv.fails if f[0] == 'GenerationsBounded'}):
+            # an accepted trace is a behaviour of the model in its "as the code does" configuration: the overrun is exactly one generation
+            verdict.add('C07/GenerationsBounded/max-generations-plus-one', 'run %s executed more than maxGenerations=%d generations' % (rid, max_gen), {'run': rid})
+        trace += tg
     # binding demonstration: a corrupted trace must be rejected
     if not rejected:
-        bad = json.loads(json.dumps(trace[:3]))
+        bad = json.loads(json.dumps([t for t in trace if t['maxGenerations'] == 3][:3]))
         k = next((i for i, e in enumerate(bad[1]['events']) if e['e'] == 'q'), None)
         if k is None:
             raise ToolError('no quota poll in the second run: nothing to corrupt')
         bad[1]['events'][k]['e'] = 't'
         fb = os.path.join(d, 'trace-corrupt.ndjson')
         common.write_ndjson(fb, bad)
-        cv = common.tlc('TraceSolver', env={'RUNS': fb}, workers=1, name=pid + '-corrupt', timeout=600, deque=True)
+        open(os.path.join(common.SPEC, 'TraceSolver_run.cfg'), 'w').write(open(os.path.join(common.SPEC, 'TraceSolver.cfg')).read().replace('MaxGen = 3', 'MaxGen = %d' % bad[0]['maxGenerations']))
+        cv = common.tlc('TraceSolver', cfg='TraceSolver_run.cfg', env={'RUNS': fb}, workers=1, name=pid + '-corrupt', timeout=600, deque=True)
         if 'TRACE-REJECTED run 2' not in cv.out:
             raise ToolError('trace spec vacuity: a corrupted event was accepted')
     # 4. returned solutions satisfy C01-C03 (VrpModel oracle)
@@ -100,7 +112,7 @@ def run(pid, tier):
     modes = collections.Counter(r['mode'] for r in runs)
     sample = runs[min(5, len(runs) - 1)]
     cov = {
-        'states': mc.distinct + tv.distinct + (res.distinct if res else 0), 'transitions': mc.generated + tv.generated + (res.generated if res else 0),
+        'states': mc.distinct + tv_states + (res.distinct if res else 0), 'transitions': mc.generated + tv_trans + (res.generated if res else 0),
         'traces_validated_against_impl': len(runs) - len(rejected),
         'evaluations': len(runs), 'distinct_nontrivial': len({(r['id'], r['mode'], r['k']) for r in runs if r['k'] >= 0}),
         'rule': 'one evaluation = one solver run on a generated valid problem with the quota turning true at its k-th poll (every k up to 40, then stride) '
